@@ -3,6 +3,7 @@
 package env
 
 import (
+	"errors"
 	"io"
 	"net"
 	"net/netip"
@@ -34,7 +35,10 @@ type Conn struct {
 	Safe    bool
 	Discard bool
 	Count   int
-	mu      sync.Mutex
+	// FailAt > 0: the FailAt-th WriteTo (1 based) fails with ErrInjected and sends nothing.
+	FailAt int
+	writes int
+	mu     sync.Mutex
 }
 
 //go:norace
@@ -57,8 +61,20 @@ func (c *Conn) WriteTo(b []byte, addr net.Addr) (int, error) {
 	if c.Yield {
 		vsched.Yield()
 	}
+	if c.failNow() {
+		return 0, ErrInjected
+	}
 	c.record(b)
 	return len(b), nil
+}
+
+// ErrInjected is the error returned by a scripted write failure.
+var ErrInjected = errors.New("injected write failure")
+
+//go:norace
+func (c *Conn) failNow() bool {
+	c.writes++
+	return c.FailAt > 0 && c.writes == c.FailAt
 }
 
 //go:norace
